@@ -146,43 +146,47 @@ def run(chk):
             m = {"d": d, "N": N, "dt": p.dt, "ranks": [x.ndim for x in p.mpos], "transforms": p.tin is not None,
                  "bonds": [x.shape[1] for x in p.mpos], "sentinel_cap": sentinel}
             for kind in ("file", "simple"):
-                with warnings.catch_warnings(record=True) as w:
-                    warnings.simplefilter("always")
-                    imp = ptm.import_process_tensor(fn, kind)
-                names_ok = (imp.name == (name if name is not None else "__unnamed__")
-                            and imp.description == (desc if desc is not None else "__no_description__"))
-                flat = flat_pt(imp, nid if names_ok else -1, did if names_ok else -1, m['ranks'])
-                exprs.append(f"roundtrip_flat {spt_lit(p, nid, did)}")
-                expected.append(flat)
-                meta.append(dict(m, import_type=kind))
-                chk.case(meta[-1], (kind, d, N, str(m["ranks"]), str(m["bonds"]), m["transforms"], p.dt is None, sentinel))
-                chk.count("import_" + kind)
-                chk.search_cases += 1
-                if w:
-                    chk.fail("clean-file-warns", f"import of a normally closed file warns: {w[0].message}", dict(m, import_type=kind))
-                # property oracle on the implementation: same object, usable with identical results
-                if not sentinel:
-                    ok = (len(imp) == len(pt) and imp.dt == pt.dt and imp.hilbert_space_dimension == d
-                          and np.array_equal(imp.get_bond_dimensions(), pt.get_bond_dimensions())
-                          and all(np.array_equal(imp.get_mpo_tensor(k), pt.get_mpo_tensor(k)) for k in range(N))
-                          and all(np.array_equal(imp.get_cap_tensor(k), pt.get_cap_tensor(k)) for k in range(N + 1))
-                          and (imp.transform_in is None) == (pt.transform_in is None)
-                          and (pt.transform_in is None or np.array_equal(imp.transform_in, pt.transform_in))
-                          and (pt.transform_out is None or np.array_equal(imp.transform_out, pt.transform_out)))
-                    if not ok:
-                        chk.fail("roundtrip-differs", f"import_process_tensor(..., '{kind}') differs from the exported object", dict(m, import_type=kind))
-                    d2 = d * d
-                    props = [(gint(rng, (d2, d2), -1, 1), gint(rng, (d2, d2), -1, 1)) for _ in range(N)]
-                    rho0 = gint(rng, (d, d), -2, 2)
-                    try:
-                        a = states_of(d, pt, props, rho0, N)
-                        b = states_of(d, imp, props, rho0, N)
-                        if not np.array_equal(a, b):
-                            chk.fail("imported-results-differ", f"compute_dynamics on the imported ('{kind}') process tensor differs", dict(m, import_type=kind))
-                    except Exception as ex:
-                        chk.fail("imported-unusable", f"compute_dynamics rejects the imported ('{kind}') process tensor: {ex!r}", dict(m, import_type=kind))
-                if kind == "file":
-                    imp.close()
+                try:
+                    with warnings.catch_warnings(record=True) as w:
+                        warnings.simplefilter("always")
+                        imp = ptm.import_process_tensor(fn, kind)
+                    names_ok = (imp.name == (name if name is not None else "__unnamed__")
+                                and imp.description == (desc if desc is not None else "__no_description__"))
+                    flat = flat_pt(imp, nid if names_ok else -1, did if names_ok else -1, m['ranks'])
+                    exprs.append(f"roundtrip_flat {spt_lit(p, nid, did)}")
+                    expected.append(flat)
+                    meta.append(dict(m, import_type=kind))
+                    chk.case(meta[-1], (kind, d, N, str(m["ranks"]), str(m["bonds"]), m["transforms"], p.dt is None, sentinel))
+                    chk.count("import_" + kind)
+                    chk.search_cases += 1
+                    if w:
+                        chk.fail("clean-file-warns", f"import of a normally closed file warns: {w[0].message}", dict(m, import_type=kind))
+                    # property oracle on the implementation: same object, usable with identical results
+                    if not sentinel:
+                        ok = (len(imp) == len(pt) and imp.dt == pt.dt and imp.hilbert_space_dimension == d
+                              and np.array_equal(imp.get_bond_dimensions(), pt.get_bond_dimensions())
+                              and all(np.array_equal(imp.get_mpo_tensor(k), pt.get_mpo_tensor(k)) for k in range(N))
+                              and all(np.array_equal(imp.get_cap_tensor(k), pt.get_cap_tensor(k)) for k in range(N + 1))
+                              and (imp.transform_in is None) == (pt.transform_in is None)
+                              and (pt.transform_in is None or np.array_equal(imp.transform_in, pt.transform_in))
+                              and (pt.transform_out is None or np.array_equal(imp.transform_out, pt.transform_out)))
+                        if not ok:
+                            chk.fail("roundtrip-differs", f"import_process_tensor(..., '{kind}') differs from the exported object", dict(m, import_type=kind))
+                        d2 = d * d
+                        props = [(gint(rng, (d2, d2), -1, 1), gint(rng, (d2, d2), -1, 1)) for _ in range(N)]
+                        rho0 = gint(rng, (d, d), -2, 2)
+                        try:
+                            a = states_of(d, pt, props, rho0, N)
+                            b = states_of(d, imp, props, rho0, N)
+                            if not np.array_equal(a, b):
+                                chk.fail("imported-results-differ", f"compute_dynamics on the imported ('{kind}') process tensor differs", dict(m, import_type=kind))
+                        except Exception as ex:
+                            chk.fail("imported-unusable", f"compute_dynamics rejects the imported ('{kind}') process tensor: {ex!r}", dict(m, import_type=kind))
+                    if kind == "file":
+                        imp.close()
+                except Exception as ex:
+                    chk.search_cases += 1
+                    chk.fail("imported-raises", f"using the process tensor imported as '{kind}' raises {ex!r} (the exported object does not)", dict(m, import_type=kind))
             chk.count("sentinel" if sentinel else "regular", 1)
 
         # ---- file-backed PT-TEMPO vs in-memory (same float operations) ----------
